@@ -245,6 +245,43 @@ pub fn raw_status_of_req(req: &str) -> String {
     "none".into()
 }
 
+/// integer models with LARGE objective coefficients (~1e4) that differ in the last digits and two knapsack-like rows
+/// over a small box: many nearly tied integer points, so a relative MIP gap of 1e-4 (or any early stop) returns a value
+/// that is wrong at the property's 1e-6 relative tolerance
+pub fn near_tied(r: &mut Rng) -> LinearModel {
+    let max = r.chance(3, 4);
+    let mut m = LinearModel::new();
+    let mut obj = vec![];
+    let n;
+    if r.chance(1, 2) {
+        // (a) every coefficient ~1e4, differing in the last digit; rows with weights 3..7
+        n = 3 + r.below(3);
+        let base = 9000.0 + r.below(1000) as f64;
+        for i in 0..n {
+            let hi = 1 + r.below(3) as i32;
+            m.add_variable(&format!("k{}", i), VariableType::IntegerRange(0, hi));
+            obj.push(base + r.below(4) as f64);
+        }
+    } else {
+        // (b) one large fixed term next to small integer decisions
+        n = 3 + r.below(2);
+        m.add_variable("open", VariableType::Boolean);
+        obj.push(if max { 100000.0 } else { -100000.0 });
+        for i in 1..n {
+            m.add_variable(&format!("k{}", i), VariableType::IntegerRange(0, 3));
+            obj.push(1.0 + r.below(5) as f64);
+        }
+    }
+    for _ in 0..2 {
+        let w: Vec<f64> = (0..n).map(|i| if obj[i].abs() >= 100000.0 { 0.0 } else { 2.0 + r.below(6) as f64 }).collect();
+        let wsum: f64 = w.iter().sum();
+        let rhs = (wsum * (0.8 + 0.2 * r.below(4) as f64)).floor() + 0.5 * r.below(2) as f64;
+        m.add_constraint(w, if max { Comparison::LessOrEqual } else { Comparison::GreaterOrEqual }, rhs);
+    }
+    m.set_objective(obj, if max { OptimizationType::Max } else { OptimizationType::Min });
+    m
+}
+
 pub fn is_continuous(m: &LinearModel) -> bool {
     m.domain().values().all(|d| matches!(d.get_type(), VariableType::Real(_, _) | VariableType::NonNegativeReal(_, _)))
 }
